@@ -182,8 +182,17 @@ pub fn exec(case: &str) -> Exec {
                     else if v == 0.0 { 0 }
                     else { ok = false; 99 };
             } }
-            ex.req = format!("c13 ctor rot{} 3 5", axis);
-            ex.resp = if ok { toks(&o) } else { "UNRECOGNISED-ENTRY".into() };
+            // at angles where sine or cosine coincide with 0, 1 or each other the entries cannot be told apart by
+            // value; the symbolic layout is then not sent to the model (the numeric checks below still run)
+            let degenerate = s == 0.0 || c == 0.0 || s.abs() == 1.0 || c.abs() == 1.0 || s.abs() == c.abs();
+            if degenerate {
+                ex.req = "-".into();
+                ex.resp = "-".into();
+                ex.tags.push("rotation:degenerate-angle".into());
+            } else {
+                ex.req = format!("c13 ctor rot{} 3 5", axis);
+                ex.resp = if ok { toks(&o) } else { "UNRECOGNISED-ENTRY".into() };
+            }
             // isometry on the implementation (tolerance: rounding is not modelled)
             let (p, q) = ((1.0, 2.0, 3.0), (-4.0, 0.5, 2.0));
             let d = |a: (f64, f64, f64), b: (f64, f64, f64)| ((a.0 - b.0).powi(2) + (a.1 - b.1).powi(2) + (a.2 - b.2).powi(2)).sqrt();
